@@ -587,7 +587,7 @@ M("c03-new-links-unchecked-prototype", ["C03"], VM,
   "            obj._prototype = constructor._prototype\n",
   [("C03", "C03-R4", "_new_object")])
 M("c08-function-writes-dropped-again", ["C08"], VM,
-  "            else:\n                obj._properties[key_str] = value\n\n    def _delete_property", "            else:\n                pass\n\n    def _delete_property",
+  "            else:\n                obj._properties[key_str] = value\n\n    def _function_prototype", "            else:\n                pass\n\n    def _function_prototype",
   [("C08", "C08-R2", "JSFunction:every-path-writes")])
 
 M("c18-to-number-without-grammar", ["C18", "C04"], VA,
@@ -1395,3 +1395,6 @@ M("c17-typed-array-from-typed-array-empty", ["C17"], CX,
 M("c08-function-prototype-unlinked", ["C08"], VM,
   "                    prototype._prototype = object_constructor._prototype\n", "                    pass\n",
   [("C08", "C08-R24", "inherits-Object.prototype")], note="fix reverted: F.prototype has no prototype")
+M("c08-getprototypeof-function-null", ["C08"], CX,
+  "            if isinstance(obj, JSFunction):\n                # Every function inherits from Function.prototype\n", "            if False:\n                # Every function inherits from Function.prototype\n",
+  [("C08", "C08-R25", "get_prototype_of")], note="fix 37f567b reverted for getPrototypeOf")
